@@ -532,6 +532,8 @@ def probe(inp):
                                                 f"are stereogenic (automorphism judge); RDKit: {rd_canon(inp['smiles'])!r}")
     if kind == 'dependent-history':
         return dep_history(inp['smiles'], inp['history'])
+    if kind == 'dependent-block':
+        return dep_block(inp['smiles'])
     if kind == 'dependent-api':
         return dep_api(inp['plain'], inp['marked'], inp['calls'], inp.get('rounds', False))
     if kind == 'dependent-edit':
@@ -3201,6 +3203,30 @@ def dep_edit(smi_from, smi_to, num, new_symbol):
                     f'{smi_to!r} parses to {str(exp)!r} ({n_labels(exp)} labels)')
 
 
+def dep_block(smi):
+    """(fails, what): the MDL route. RDKit draws `smi` (2-D coordinates, wedges); chython's reading of that block (wedges in retry
+    rounds, double bonds from the coordinates after every round) must be the molecule `smi` parses to; the block chython writes for
+    it must read back as the same molecule, by chython and by RDKit"""
+    from chython import smiles
+    block, can = rd_block(smi)
+    if block is None or rd_canon_block(block) != can:
+        return False, f'{smi!r}: skipped (RDKit does not read its own drawing back as the input)'
+    ref = smiles(smi)
+    m = chy_from_block(block)
+    if not (m == ref) or n_labels(m) != n_labels(ref):
+        return True, (f'{smi!r} parses to {str(ref)!r} ({n_labels(ref)} labels); its RDKit drawing (RDKit reads it as {can!r}) is read by chython as '
+                      f'{str(m)!r} ({n_labels(m)} labels)')
+    b2 = chy_to_block(m)
+    m2 = chy_from_block(b2)
+    if not (m2 == ref) or n_labels(m2) != n_labels(ref):
+        return True, f'{smi!r}: {str(m)!r} written as mol block and read back is {str(m2)!r} ({n_labels(m2)} labels instead of {n_labels(ref)})'
+    back = rd_canon_block(b2)
+    back = rd_canon(back) if back else back
+    if back != can:
+        return True, f'{smi!r}: chython holds {str(m)!r} but writes wedges that RDKit reads as {back!r} (input: {can!r})'
+    return False, f'{smi!r}: mol-block read and write agree with the SMILES parse and with RDKit'
+
+
 def _api_calls(sp, index):
     num = {a: index[a] + 1 for a in index}
     calls = []
@@ -3277,6 +3303,15 @@ def dep_case(ctx, name, rng, n_spell, n_combos=None, n_hist=2, known=None):
                 f, what = True, f'{smi!r} after {h}: {type(e).__name__}: {e}'
             if f:
                 fail('label-dependent-unit/changed-by-constitution-preserving-operation', what, {'kind': 'dependent-history', 'smiles': smi, 'history': h})
+        if not spec.allenes and rng.random() < 0.5:
+            ctx.count(('dependent-block', smi))
+            try:
+                f, what = dep_block(smi)
+            except Exception as e:
+                f, what = True, f'{smi!r} through a mol block: {type(e).__name__}: {e}'
+            ctx.dist('dependent-block:' + ('FAIL' if f else 'skipped' if 'skipped' in what else 'ok'))
+            if f:
+                fail('label-dependent-unit/mol-block-differs-from-smiles', what, {'kind': 'dependent-block', 'smiles': smi})
         if rng.random() < 0.5:
             seed = rng.randrange(10 ** 9)
             import random as _r
